@@ -154,7 +154,7 @@ def check(cid, tier, seed):
     anchors = src.anchors
     # ---- B build + audit ---------------------------------------------------------------------
     try:
-        ba = core.build_and_audit(cid, gen_text, log)
+        ba = core.build_and_audit(cid, gen_text, log, tier)
     except Exception as e:
         log(f"infrastructure failure in build: {e}")
         return 2
